@@ -1,0 +1,20 @@
+//go:build verif
+
+// Contracts for the deductive checks under /verif (comment-only; compiled only with -tags verif).
+
+package aquadb
+
+// Ghost: flushed is true exactly after a batch was written successfully and no new batch was
+// started since (ghost instrumentation of the Batch interface, assumed at call sites).
+//@ ghost flushed Bool
+
+//@ type Database.NewBatch
+//@   trusted
+//@   ensures !flushed
+//@   assigns flushed
+
+//@ type Batch.Write
+//@   trusted
+//@   ensures result == nil ==> flushed
+//@   ensures result != nil ==> !flushed
+//@   assigns flushed
